@@ -73,6 +73,7 @@ pub struct Emitter {
     pub n: u64,
     pub samples: Vec<String>,
     pub oracle_failures: Vec<String>,
+    stage_path: std::path::PathBuf,
 }
 
 impl Emitter {
@@ -85,7 +86,13 @@ impl Emitter {
             n: 0,
             samples: vec![],
             oracle_failures: vec![],
+            stage_path: dir.join("stage.txt"),
         }
+    }
+    /// Note what the harness is about to do outside a `case` (building / proving a circuit …):
+    /// if the process dies there, check.py reports this description instead of blaming a request.
+    pub fn stage(&mut self, what: &str) {
+        let _ = std::fs::write(&self.stage_path, what);
     }
     /// Record one case: the request line and the implementation's answer (PANIC if it unwinds).
     pub fn case<Fun: FnOnce() -> String>(&mut self, class: &str, req: String, f: Fun) {
@@ -93,12 +100,14 @@ impl Emitter {
         // allocation failure) the last line of req.txt names the case that killed it
         writeln!(self.req, "{}", req).unwrap();
         self.req.flush().unwrap();
+        let _ = std::fs::write(&self.stage_path, "case");
         let ans = match catch_unwind(AssertUnwindSafe(f)) {
             Ok(s) => s,
             Err(_) => "PANIC".to_string(),
         };
         debug_assert!(!req.contains('\n') && !ans.contains('\n'));
         writeln!(self.ans, "{}", ans).unwrap();
+        let _ = std::fs::write(&self.stage_path, "between cases");
         *self.hist.entry(class.to_string()).or_insert(0) += 1;
         if self.samples.len() < 12 && (self.n % 97 == 0) {
             self.samples.push(format!("{} => {}", req, ans));
